@@ -23,12 +23,13 @@ INFO = {
     "a build that fails (strategies off on a conflicting grammar); build GLRParser(G, prefer_shifts=True, "
     "prefer_shifts_over_empty=True) (same table options as the LR parser, other lexical_disambiguation).  A GLRParser "
     "instance built before the history goes through the same parse operations.  One grammar has a string terminal "
-    "overlapping a custom 'word' recogniser and a recogniser that raises when error reporting probes it.  After the history every string of length <= 3 over "
+    "overlapping a custom 'word' recogniser and a recogniser that raises when error reporting probes it (a user exception; "
+    "in a twin grammar a TypeError of its own - the exception type parglare uses to probe the recogniser's calling convention).  After the history every string of length <= 3 over "
     "the grammar's alphabet plus a layout and a foreign character is parsed with P, and with a Parser and a GLRParser "
     "constructed on G after the history; every outcome (result / forest size + first trees / exception type + position) "
     "and the serialised tables must equal those of parsers freshly built from freshly parsed grammar text; "
     "G.productions[0].rhs and G._first_sets are unchanged after every operation.",
-    "bounds": {"quick": {"L": 2, "grammars": 2, "vectors": "all 49 of length 2 on one grammar, 12 on the other", "len(w_i)": "<= 2", "probe": "<= 3"},
+    "bounds": {"quick": {"L": 2, "grammars": 2, "vectors": "all 64 of length 2 on one grammar, 12 on two others, 4 on the TypeError twin", "len(w_i)": "<= 2", "probe": "<= 3"},
                "thorough": {"L": "2 (all 64 vectors, 3 grammars) and 3 (16 seeded vectors)"}},
     "outside": "histories longer than L; threads; interruption inside create_table (the un-finally'd swap of the augmented "
     "production can only be left dirty by an exception between two lines, which none of the modelled operations raises)",
@@ -52,13 +53,16 @@ G_LAYOUT = "S: S 'a' | 'b' | S 'c' S;\nLAYOUT: LI | LAYOUT LI | EMPTY;\nLI: '_';
 # string terminal 'ab' vs. a custom "word" recogniser (stands for a regex: longest run of a/b/c); terminal Z is expected only
 # after 'x' and its recogniser raises on the character 'z' - so at an error position it is reached only through error reporting
 G_OVER = "S: Item S | Item | 'x' Z;\nItem: 'ab' | W;\nterminals\nW: ;\nZ: ;"
-GRAMMARS = {"expr": (G_EXPR, "ab+ z"), "layout": (G_LAYOUT, "abc_z"), "overlap": (G_OVER, "abcxz")}
+# "overlap-te": the same, but the recogniser fails with a TypeError of its own (the exception type parglare itself uses to
+# probe the calling convention of recognisers)
+GRAMMARS = {"expr": (G_EXPR, "ab+ z"), "layout": (G_LAYOUT, "abc_z"), "overlap": (G_OVER, "abcxz"), "overlap-te": (G_OVER, "abcxz")}
 OPS = ["parse", "recover", "raise", "build_glr", "build_slr", "build_lr", "build_fail", "build_glr_ps"]
 
 
 def make_recognizers(gname):
-    if gname != "overlap":
+    if not gname.startswith("overlap"):
         return None
+    exc = TypeError if gname.endswith("-te") else Boom
 
     def word(input, pos):
         e = pos
@@ -68,7 +72,7 @@ def make_recognizers(gname):
 
     def zed(input, pos):
         if input[pos : pos + 1] == "z":
-            raise Boom()
+            raise exc()
         return None
 
     return {"W": word, "Z": zed}
@@ -84,7 +88,7 @@ def make_actions(gname):
             raise Boom()
         return "b"
 
-    if gname == "overlap":
+    if gname.startswith("overlap"):
         return {}
     if gname == "expr":
         return {"E": [lambda _, n: [n[0], "+", n[2]], lambda _, n: "a", raising]}
@@ -96,9 +100,9 @@ def cases(tier, seed):
     vecs2 = list(itertools.product(range(len(OPS)), repeat=2))
     over = [(0, 0), (0, 7), (7, 0), (7, 5), (3, 7), (1, 0), (0, 3), (4, 0), (7, 7), (5, 7), (0, 1), (2, 0)]
     if tier == "quick":
-        sel = {"expr": vecs2, "overlap": over, "layout": [(0, 5), (5, 0), (3, 0), (6, 0), (1, 0), (2, 0), (4, 5), (6, 5), (2, 2), (1, 3), (0, 6), (5, 5)]}
+        sel = {"expr": vecs2, "overlap": over, "overlap-te": [(0, 0), (0, 7), (7, 0), (1, 0)], "layout": [(0, 5), (5, 0), (3, 0), (6, 0), (1, 0), (2, 0), (4, 5), (6, 5), (2, 2), (1, 3), (0, 6), (5, 5)]}
     else:
-        sel = {"expr": vecs2, "layout": vecs2, "overlap": vecs2}
+        sel = {"expr": vecs2, "layout": vecs2, "overlap": vecs2, "overlap-te": over}
     for gn, vs in sel.items():
         for v in vs:
             out.append({"name": "%s|%s" % (gn, ",".join(OPS[o] for o in v)), "params": {"g": gn, "ops": list(v)}, "budget_s": 3000})
@@ -147,12 +151,14 @@ def build(params, symbolic):
     fg = mk_grammar(params["g"])
     fresh_lr = Parser(fg, actions=make_actions(params["g"]))
     fresh_glr = GLRParser(mk_grammar(params["g"]), actions=make_actions(params["g"]))
-    can_fail = params["g"] != "overlap"
+    can_fail = not params["g"].startswith("overlap")
     fresh_glr_ps = GLRParser(mk_grammar(params["g"]), actions=make_actions(params["g"]), prefer_shifts=True, prefer_shifts_over_empty=True)
     fresh = {w: (outcome(fresh_lr, w), outcome(fresh_glr, w), outcome(fresh_glr_ps, w)) for w in probes}
     fresh_fp = (fp(fresh_lr), fp(fresh_glr), fp(fresh_glr_ps))
     stats = {}
     L = len(ops)
+
+    USER_EXC = (parglare.SyntaxError, Boom) + ((TypeError,) if params["g"].endswith("-te") else ())
 
     def body(ws):
         ns = [length_of(w, 2) for w in ws]
@@ -169,18 +175,18 @@ def build(params, symbolic):
             if name in ("parse", "raise"):
                 try:
                     P.parse(w)
-                except (parglare.SyntaxError, Boom):
+                except USER_EXC:
                     pass
                 try:
                     PG.parse(w)
-                except (parglare.SyntaxError, Boom):
+                except USER_EXC:
                     pass
             elif name == "recover":
                 with native():
                     R = Parser(G, actions=acts, error_recovery=True)
                 try:
                     R.parse(w)
-                except (parglare.SyntaxError, Boom):
+                except USER_EXC:
                     pass
             else:
                 with native():
